@@ -2,7 +2,7 @@
 import core
 import gen
 from core import PANIC, Some, Ok
-from props.common import default_encode, default_decode
+from props.common import thorough_aux, default_encode, default_decode
 from props.c10 import to_digits, DIGITS
 
 PROP = 'C11'
@@ -136,3 +136,6 @@ REQUIRED = ['string radix out of range', 'slice radix out of range', 'negative v
 
 def floors(st, tier):
     return ['class %r never observed' % c for c in REQUIRED if st['classes'].get(c, 0) == 0]
+
+
+extra_passes = thorough_aux('props.c11', ('miri',))
